@@ -38,6 +38,12 @@ print(len(missing))
 for m in missing[:10]: print("  suite-regression:",m,file=sys.stderr)
 PY
 )
+    # the same with the feature set the harness uses (dnssec, sqlite, recursor): failing tests must be
+    # within the known network-dependent set
+    /verif/tools/featsuite.sh $S/repo $S/feat.txt >/dev/null 2>&1
+    feat_new=$(sort -u $S/feat.txt | comm -23 - /verif/tools/featsuite-expected-failures.txt | wc -l)
+    sort -u $S/feat.txt | comm -23 - /verif/tools/featsuite-expected-failures.txt | head -5 | sed 's/^/  feature-suite-regression: /' >&2
+    new_fail=$((new_fail + feat_new))
 fi
 git checkout -q -- .; git clean -fdq -e target
 echo "SEED-RESULT {\"seed\":\"$NAME\",\"applies\":true,\"demo_rc_without_patch\":$rc_clean,\"demo_rc_with_patch\":$rc_patched,\"suite_stable_tests_not_passing_with_patch\":$new_fail}"
